@@ -33,6 +33,7 @@ fn main() {
     *common::ABORT_FILE.lock().unwrap() = format!("{}.abort", out);
     let skip: std::collections::HashSet<usize> = opt("--skip").map(|s| s.split(',').filter_map(|x| x.parse().ok()).collect()).unwrap_or_default();
     let mode = opt("--mode").unwrap_or_default();
+    if args.iter().any(|a| a == "--narrow") { tab::NARROW.store(true, std::sync::atomic::Ordering::Relaxed); }
     common::run_with_watchdog(&out, 30, move || match cmd.as_str() {
         "drive_ans" => {
             let w: u32 = optc(&argv, "--w").unwrap(); let s: u32 = optc(&argv, "--s").unwrap();
